@@ -837,16 +837,16 @@ Proof.
   destruct (N.eq_dec id sid) as [->|Hne].
   - assert (Hd : rp_done T0 BLKS stf st'); [|split; [right; exact Hd|split; [intros _; exact Hd|exact Hdone]]].
     (* the target *)
-    destruct (rp_FInv_close summ1 summN d pos0 Hpos0 Hsid Hg_idx Hg_sum Hspd Hw Hg_data Hfill T0 BLKS stf (rp_fx st s f) HF)
-      as (cs & new & HF2 & Hfil & _ & Hbok & _).
-    cbv zeta in HF2, Hfil, Hbok.
-    destruct (rp_close_target_eq st s f _ Hfind Hfsr Hdef Hits eq_refl) as (s3 & Est & Eid3 & Hi3).
-    subst st'. rewrite Est.
+    pose proof (rp_FInv_close summ1 summN d pos0 Hpos0 Hsid Hg_idx Hg_sum Hspd Hw Hg_data Hfill T0 BLKS stf (rp_fx st s f) HF) as P.
+    cbv zeta in P. remember (wm_fsr_close summ1 summN d (rp_fx st s f)) as X eqn:EX.
+    destruct P as (cs & new & HF2 & Hfil & _ & Hbok & _).
+    destruct (rp_close_target_eq st s f X Hfind Hfsr Hdef Hits (eq_sym EX)) as (s3 & Est & Eid3 & Hi3).
+    clear EX. subst st'. rewrite Est. unfold rf_out in Hfil.
     split; [exact Hbok|]. split.
     + unfold wm_put_sig. cbn [wm_st_sigs]. apply Forall_forall. intros y Hy. apply in_map_iff in Hy. destruct Hy as (y0 & <- & Hy0).
       rewrite Forall_forall in Hoth. destruct (N.eqb_spec (wm_sig_id y0) (wm_sig_id s3)) as [E|E]; [exact Hi3|].
       destruct (Hoth y0 Hy0) as [E'|Hi]; [rewrite Eid3 in E; contradiction|exact Hi].
-    + exists cs. split; [exact HF2|]. exact Hfil.
+    + exists cs. split; [exact HF2|]. unfold rp_bout, wm_put_sig. cbn [wm_st_base]. exact Hfil.
   - assert (Hg : rp_G1c T0 BLKS stf st'); [|split; [left; exact Hg|split; [intro E; contradiction|exact Hdone]]].
     (* another signal: idle *)
     subst st'. destruct (wm_find_sig st id) as [s'|] eqn:Ef.
